@@ -13,11 +13,14 @@ const PROPS: [&str; 6] = ["Name", "Size", "Encrypted", "Tags", "Config", "Zone"]
 const STRS: [&str; 18] = ["abc", "a-b", "with space", "007", "true", "it's", "x/y", "AWS::S3::Bucket", "\u{fc}n\u{ef}", "", "us-west-2b", "a,b", "[x]", "CORP\\build-agents", "tab\there", " padded ", "quo\"te", "back\\"];
 
 fn gen_scalar(u: &mut Choices, hard: bool) -> V {
-    match u.weighted(&[5, 3, 2]) {
+    match u.weighted(&[10, 6, 4, 3]) {
         0 => {
             let n = if hard { STRS.len() } else { 15 };
             V::Str(STRS[u.below(n)].to_string())
         }
+        // floats: plain, with an exponent either way (serde_json prints `1e22`, `1e-7`), negative
+        // (the grammar has no negative float literal: rulegen may only answer with a diagnostic)
+        3 => V::Float(*u.pick(&[2.5f64, 1.0, 0.1, 1e22, 2.5e16, 1e-7, 6.25e-5, 1.5e300, -1.5, -1e22])),
         1 => V::Int(*u.pick(&[0i64, 1, 50, 500, -1, 65536, 9007199254740993, -9007199254740993, i64::MAX, 4611686018427387905])),
         _ => V::Bool(u.chance(1, 2)),
     }
@@ -215,6 +218,7 @@ fn check_output(t_doc: &V, types_with_props: &[String], scalars: &[(String, Stri
             _ => match v {
                 V::Str(_) => V::s("zz-fresh-value"),
                 V::Int(_) => V::Int(987654),
+                V::Float(_) => V::Float(987.25),
                 V::Bool(_) => V::s("zz-not-a-bool"),
                 _ => continue,
             },
